@@ -3,7 +3,7 @@ from vlib import corpus, oracles, reharness, sweep
 from vlib.harness import Harness, register
 from harnesses.c01_documents import OUT, STUBS, _fns
 
-PLANS_Q = ["count2", "scan2", "rel_scan2", "list_scan2", "nested_runs", "bare", "adaptive", "count_norewind"]
+PLANS_Q = ["count2", "scan2", "rel_scan2", "list_scan2", "nested_runs", "bare", "adaptive", "count_norewind", "configure_late"]
 PLANS_T = PLANS_Q + ["scan3", "grid2x2", "tune", "staged_monitor", "declared"]
 _REF = {}
 
